@@ -1,7 +1,7 @@
 (** dcmstack main: no hidden state, the API arguments are the stated functions of the options,
     invocations in one process are independent. *)
 From Coq Require Import List Bool Arith ZArith NArith Lia.
-From DV Require Import Common.Res Common.Str Common.PyNum Filter.Model Generated.T_cli Cli.Model Cli.Spec.
+From DV Require Import Common.Res Common.Str Common.PyNum Filter.Model Generated.T_cli Cli.Model Cli.Spec Cli.ProofsNames.
 Import ListNotations.
 Local Open Scope nat_scope.
 
@@ -198,4 +198,156 @@ Proof.
   unfold path_join. intros -> ->. destruct (negb (nonempty dir) || ends_with_slash dir); intros H.
   - exact (app_inv_head _ _ _ H).
   - apply app_inv_head in H. injection H as H. exact H.
+Qed.
+
+(** inversion of a run: either nothing was attempted, or the directory loop ran with these arguments *)
+Lemma dcmstack_run_inv g a i ds e :
+  snd (dcmstack_main g a i) = ORun ds e ->
+  ds = [] \/
+  exists x t_ord v_ord,
+    build_extractor g a = Some x /\
+    build_order i (a_time_var a) (a_time_order a) = Ok t_ord /\
+    build_order i (a_vector_var a) (a_vector_order a) = Ok v_ord /\
+    dir_loop a i (g_excl g ++ a_exclude_regex a) (g_incl g ++ a_include_regex a) t_ord v_ord
+             (match a_group_by a with Some s => split_on 44%N s | None => g_group_keys g end) x (a_src_dirs a) = (ds, e).
+Proof.
+  unfold dcmstack_main.
+  destruct (a_version a); [discriminate|].
+  destruct (a_list_translators a); [discriminate|].
+  destruct (a_default_regexes a); [discriminate|].
+  destruct (build_extractor g a) as [x|] eqn:Ex; [|discriminate].
+  unfold init_extend. rewrite incl_copied_true, excl_copied_true. cbv beta iota zeta.
+  rewrite set_lists_id.
+  destruct (build_order i (a_time_var a) (a_time_order a)) as [t_ord|e1] eqn:Et;
+    [|cbn [snd]; intros H; injection H as <- <-; left; reflexivity].
+  destruct (build_order i (a_vector_var a) (a_vector_order a)) as [v_ord|e2] eqn:Ev;
+    [|cbn [snd]; intros H; injection H as <- <-; left; reflexivity].
+  destruct (a_src_dirs a) as [|d0 dirs] eqn:Ed; [discriminate|].
+  destruct (dir_loop _ _ _ _ _ _ _ _ _) as [dd e'] eqn:El. cbn [snd]. intros H. injection H as -> ->.
+  right. exists x, t_ord, v_ord. repeat split. exact El.
+Qed.
+
+(** the names written for one source directory are pairwise distinct (from ProofsNames) *)
+Lemma dcmstack_names_distinct g a i ds e d :
+  snd (dcmstack_main g a i) = ORun ds e -> In d ds -> NoDup (map fo_name (do_files d)).
+Proof.
+  intros H Hd. destruct (dcmstack_run_inv _ _ _ _ _ H) as [-> | [x [t_ord [v_ord [_ [_ [_ El]]]]]]]; [destruct Hd|].
+  exact (ProofsNames.dir_loop_names _ _ _ _ _ _ _ _ _ _ _ El d Hd).
+Qed.
+
+(** ... and so are the paths, when the extension does not begin with '/' *)
+Lemma sanitize_no_slash s : forallb (fun c => negb (N.eqb c slash)) (sanitize_path_comp s) = true.
+Proof.
+  unfold sanitize_path_comp. induction s as [|c r IH]; cbn [map forallb]; [reflexivity|]. rewrite IH, andb_true_r.
+  destruct (keep_char c) eqn:E.
+  - destruct (N.eqb_spec c slash) as [->|Hne]; [rewrite ProofsNames.slash_not_kept in E; discriminate | reflexivity].
+  - rewrite ProofsNames.repl_not_slash. reflexivity.
+Qed.
+
+Lemma starts_with_slash_app x y :
+  starts_with_slash (x ++ y) = match x with [] => starts_with_slash y | _ => starts_with_slash x end.
+Proof. destruct x; reflexivity. Qed.
+
+Lemma suffix_no_lead_slash k : starts_with_slash (suffix k) = false.
+Proof.
+  unfold suffix. pose proof ProofsNames.sfx_prefix_no_slash as H.
+  destruct sfx_prefix as [|c r]; [destruct H|]. cbn [app starts_with_slash]. exact H.
+Qed.
+
+Lemma unique_no_lead_slash gen out_idx nn out :
+  unique_name gen out_idx (sanitize_path_comp nn) = Ok out -> starts_with_slash out = false.
+Proof.
+  intros H. destruct (ProofsNames.unique_name_ok gen out_idx (sanitize_path_comp nn)) as [out' [H1 [_ H2]]].
+  rewrite H in H1. injection H1 as <-.
+  assert (Hfn : starts_with_slash (sanitize_path_comp nn) = false).
+  { pose proof (sanitize_no_slash nn) as Hs. destruct (sanitize_path_comp nn) as [|c r]; [reflexivity|].
+    cbn [forallb] in Hs. apply andb_true_iff in Hs as [Hc _]. cbn [starts_with_slash].
+    destruct (N.eqb c slash); [discriminate | reflexivity]. }
+  destruct H2 as [[_ ->] | [_ [k [-> _]]]]; [exact Hfn|].
+  rewrite starts_with_slash_app. destruct (sanitize_path_comp nn); [apply suffix_no_lead_slash | exact Hfn].
+Qed.
+
+Section Paths.
+  Variable a : args.
+  Variable i : inputs.
+  Variable excl incl : list str.
+  Variable t_ord v_ord : option ordering.
+  Hypothesis ext_ok : starts_with_slash (a_output_ext a) = false.
+
+  Lemma group_loop_no_lead_slash : forall groups d gen out_idx gidx files e,
+    group_loop a i excl incl t_ord v_ord d gen out_idx gidx groups = (files, e) ->
+    forall f, In f files -> starts_with_slash (fo_name f) = false.
+  Proof.
+    induction groups as [|gi rest IH]; intros d gen out_idx gidx files e H f Hf; cbn [group_loop] in H.
+    - injection H as <- <-. destruct Hf.
+    - destruct (i_stack i _) as [u|er]; [|injection H as <- <-; destruct Hf].
+      destruct (natural_name a gi) as [nn|er]; [|injection H as <- <-; destruct Hf].
+      destruct (unique_name gen out_idx (sanitize_path_comp nn)) as [out|er] eqn:Eu; [|injection H as <- <-; destruct Hf].
+      destruct (i_nifti i _ _) as [u'|er]; [|injection H as <- <-; destruct Hf].
+      destruct (if a_dump_meta a then _ else _) as [jp|er]; [|injection H as <- <-; destruct Hf].
+      destruct (group_loop a i excl incl t_ord v_ord d (out :: gen) (S out_idx) (S gidx) rest) as [fs e'] eqn:E.
+      injection H as <- <-. destruct Hf as [<- | Hf]; [|exact (IH _ _ _ _ _ _ E f Hf)].
+      cbn [fo_name]. rewrite starts_with_slash_app. pose proof (unique_no_lead_slash _ _ _ _ Eu) as Ho.
+      destruct out; [exact ext_ok | exact Ho].
+  Qed.
+
+  Lemma group_loop_paths_distinct groups d files e :
+    group_loop a i excl incl t_ord v_ord d [] 0 0 groups = (files, e) -> NoDup (map fo_path files).
+  Proof.
+    intros H.
+    pose proof (ProofsNames.group_loop_names_distinct _ _ _ _ _ _ _ _ _ _ H) as Hnd.
+    pose proof (group_loop_fields _ _ _ _ _ _ _ _ _ _ _ _ _ H) as Hf.
+    pose proof (group_loop_no_lead_slash _ _ _ _ _ _ _ H) as Hs.
+    assert (Hm : map fo_path files =
+                 map (fun f => path_join (match truthy (a_dest_dir a) with Some dd => dd | None => d end) (fo_name f)) files).
+    { apply map_ext_in. intros f Hin. destruct (Hf f Hin) as [_ [_ [_ [_ [_ [_ [_ [_ [_ [Hp _]]]]]]]]]]. exact Hp. }
+    rewrite Hm, <- (map_map fo_name (path_join _)).
+    apply ProofsNames.NoDup_map_inj; [|exact Hnd].
+    intros x y Hx Hy. apply in_map_iff in Hx as [fx [<- Hfx]]. apply in_map_iff in Hy as [fy [<- Hfy]].
+    apply path_join_inj; [exact (Hs fx Hfx) | exact (Hs fy Hfy)].
+  Qed.
+
+  Lemma dir_loop_paths_distinct : forall dirs group_by x ds e,
+    dir_loop a i excl incl t_ord v_ord group_by x dirs = (ds, e) ->
+    forall d, In d ds -> NoDup (map fo_path (do_files d)).
+  Proof.
+    induction dirs as [|d0 rest IH]; intros group_by x ds e H d Hd; cbn [dir_loop] in H.
+    - injection H as <- <-. destruct Hd.
+    - destruct (i_groups i _) as [groups|er]; [|injection H as <- <-; destruct Hd].
+      destruct (group_loop a i excl incl t_ord v_ord d0 [] 0 0 groups) as [files e0] eqn:E.
+      destruct e0 as [er|].
+      + injection H as <- <-. destruct Hd as [<- | []]. cbn [do_files]. exact (group_loop_paths_distinct _ _ _ _ E).
+      + destruct (dir_loop a i excl incl t_ord v_ord group_by x rest) as [ds' e'] eqn:E'.
+        injection H as <- <-. destruct Hd as [<- | Hd].
+        * cbn [do_files]. exact (group_loop_paths_distinct _ _ _ _ E).
+        * exact (IH _ _ _ _ E' d Hd).
+  Qed.
+End Paths.
+
+Lemma dcmstack_paths_distinct g a i ds e d :
+  starts_with_slash (a_output_ext a) = false ->
+  snd (dcmstack_main g a i) = ORun ds e -> In d ds -> NoDup (map fo_path (do_files d)).
+Proof.
+  intros Hext H Hd. destruct (dcmstack_run_inv _ _ _ _ _ H) as [-> | [x [t_ord [v_ord [_ [_ [_ El]]]]]]]; [destruct Hd|].
+  exact (dir_loop_paths_distinct _ _ _ _ _ _ Hext _ _ _ _ _ El d Hd).
+Qed.
+
+(** as many files as groups when nothing raised *)
+Lemma dcmstack_one_per_group g a i ds d :
+  snd (dcmstack_main g a i) = ORun ds None -> In d ds ->
+  exists groups, i_groups i (do_group_call d) = Ok groups /\ length (do_files d) = length groups.
+Proof.
+  intros H Hd. destruct (dcmstack_run_inv _ _ _ _ _ H) as [-> | [x [t_ord [v_ord [_ [_ [_ El]]]]]]]; [destruct Hd|].
+  clear H. revert El d Hd. generalize (a_src_dirs a) as dl.
+  generalize (match a_group_by a with Some s => split_on 44%N s | None => g_group_keys g end) as gb.
+  intros gb dl. revert ds. induction dl as [|d0 rest IH]; intros ds El d Hd; cbn [dir_loop] in El.
+  - injection El as <-. destruct Hd.
+  - destruct (i_groups i _) as [groups|er] eqn:Eg; [|discriminate].
+    destruct (group_loop _ _ _ _ _ _ d0 [] 0 0 groups) as [files e0] eqn:E.
+    destruct e0 as [er|]; [discriminate|].
+    destruct (dir_loop _ _ _ _ _ _ gb x rest) as [ds' e'] eqn:E'.
+    injection El as <- ->. destruct Hd as [<- | Hd].
+    + exists groups. cbn [do_group_call do_files]. split; [exact Eg|].
+      destruct (ProofsNames.group_loop_names _ _ _ _ _ _ _ _ _ _ _ _ _ E) as [outs [_ [_ [_ Hl]]]]. exact (Hl eq_refl).
+    + exact (IH _ eq_refl d Hd).
 Qed.
